@@ -18,6 +18,14 @@ FLOORS = {
               "zoo_completed": 500, "nan_cases": 800},
     "thorough": {"distinct_nontrivial": 6000, "grid_valid_completed": 6000},
 }
+ANCHORS = [
+    "skchange.utils.validation.parameters.check_larger_than",
+    "skchange.utils.validation.parameters.check_in_interval",
+    "skchange.utils.validation.data.check_data",
+    "skchange.change_detectors.seeded_binseg.make_seeded_intervals",
+    "skchange.anomaly_detectors.circular_binseg.make_anomaly_intervals",
+    "skchange.change_detectors.moving_window.moving_window_transform",
+]
 LEVEL = "exploration"
 EXHAUSTIVE_SUBSPACES = {
     t: ["full cross product of the boundary/interior hyper-parameter values listed in vf/checks/c14.py "
